@@ -207,3 +207,33 @@ impl BitSink for CountSink {
         Ok(())
     }
 }
+
+/// The same recording / failing sink with a ZERO-SIZED error type (a unit struct, like
+/// `std::fmt::Error`): the position of the failure is kept in the sink, not in the error.
+#[derive(Debug, Clone, Copy, PartialEq, Eq)]
+pub struct UnitFault;
+impl fmt::Display for UnitFault {
+    fn fmt(&self, f: &mut fmt::Formatter<'_>) -> fmt::Result {
+        write!(f, "injected sink fault (unit error)")
+    }
+}
+impl std::error::Error for UnitFault {}
+
+#[derive(Clone, Debug, Default)]
+pub struct UnitErrSink(pub UserSink);
+
+impl BitSink for UnitErrSink {
+    type Error = UnitFault;
+    fn align_to_byte(&mut self) -> Result<usize, Self::Error> {
+        self.0.align_to_byte().map_err(|_| UnitFault)
+    }
+    fn write_lsbs<T: Bits>(&mut self, val: T, n: usize) -> Result<(), Self::Error> {
+        self.0.write_lsbs(val, n).map_err(|_| UnitFault)
+    }
+    fn write_msbs<T: Bits>(&mut self, val: T, n: usize) -> Result<(), Self::Error> {
+        self.0.write_msbs(val, n).map_err(|_| UnitFault)
+    }
+    fn write<T: Bits>(&mut self, val: T) -> Result<(), Self::Error> {
+        self.0.write(val).map_err(|_| UnitFault)
+    }
+}
